@@ -251,6 +251,13 @@ class Tripwires:
             return out[:n]
 
         os.urandom = fake_urandom
+        import platform as _platform
+        import socket as _socket
+
+        _socket.gethostname = lambda: (tw._touch("socket.gethostname"), "simhost")[1]
+        _socket.getfqdn = lambda name="": (tw._touch("socket.getfqdn"), "simhost.invalid")[1]
+        _platform.node = lambda: (tw._touch("platform.node"), "simhost")[1]
+        os.getlogin = lambda: (tw._touch("os.getlogin"), "simuser")[1]
         os.getpid = lambda: (tw._touch("os.getpid"), 4242)[1]
         os.getppid = lambda: (tw._touch("os.getppid"), 4241)[1]
         for name in ("random", "randint", "randrange", "choice", "shuffle", "sample", "getrandbits", "uniform", "choices"):
